@@ -416,6 +416,14 @@ func runC17(cx *ctx) {
 					impl = "ran:" + strings.Join(ran, ",")
 					oracle = fmt.Sprintf("the CLI started several programs: %v", ran)
 				}
+				// the last clause of the property, without the model: a program may only be started when the command line
+				// itself names a plugin (a -j name, a plugin recipient string age1NAME1…, a plugin identity string
+				// AGE-PLUGIN-NAME-1…), never because of what the input file's header says
+				up := strings.ToUpper(arg)
+				named := op == "clij" || strings.HasPrefix(up, "AGE-PLUGIN-") || (strings.HasPrefix(up, "AGE1") && strings.Count(arg, "1") > 1)
+				if oracle == "" && len(ran) > 0 && !named {
+					oracle = fmt.Sprintf("the CLI started %v although no plugin recipient, identity or name was given (argument %q)", ran, arg)
+				}
 				return &h.Case{Kind: kind, Line: op + " " + hx(arg), Impl: impl, Oracle: oracle, NonTrivial: true,
 					Note:  fmt.Sprintf("age %s (exit %d)", strings.Join(args, " "), exit),
 					Canon: canonCli}
